@@ -902,3 +902,37 @@ def _mk_tr_kw(which):
 
 _mk_tr_kw('trcl')
 _mk_tr_kw('fill')
+
+
+# ------------------------------------------------------------------ implicit surfaces 1000*cell + surface
+
+from t4_geom_convert.Kernel.Volume import ConstructVolumeT4 as _CVT4
+
+
+@contract(_CVT4.extract_tr_surf_ids, props=['C04'], name='ConstructVolumeT4.extract_tr_surf_ids', status='B')
+class _ImplicitIds:
+    """The implicit surface numbers (>= 1000) of a deck are exactly those referenced by some cell, in either sense,
+    at any depth of the expression (parentheses, unions, complements of sub-expressions), whole or by facet."""
+    scope = '12 cell geometries (0-2 implicit references each, both senses, nested, facet form) in dictionaries of 1-2 cells'
+
+    GEOMS = [('-1 2', set()), ('-1001 2', {1001}), ('1 : 5003', {5003}), ('#(1 -5003)', {5003}), ('(1:-2) (-7002 : 3)', {7002}),
+             ('-1001 1001', {1001}), ('-12003 -1', {12003}), ('#(2:(3 -4005)) 1', {4005}), ('999 -1000', {1000}),
+             ('-3 : (4 #(5 : 6001 -7002))', {6001, 7002}), ('-2004.1 5', {2004}), ('#7 -8001', {8001})]
+
+    def bounded(tier):
+        G = _ImplicitIds.GEOMS
+        for i, (g, ids) in enumerate(G):
+            yield {'geoms': (g,), 'want': sorted(ids)}
+            g2, ids2 = G[(i + 5) % len(G)]
+            yield {'geoms': (g, g2), 'want': sorted(ids | ids2)}
+
+    def call(geoms, want):
+        from harness import shim
+        shim.install()
+        from MIP.geom import parsegeom
+        from t4_geom_convert.Kernel.Volume.CellMCNP import CellMCNP
+        cells = {10 + i: CellMCNP('0', None, parsegeom.get_ast(g), 1.0, 0, None, (), None, [], []) for i, g in enumerate(geoms)}
+        return sorted(_CVT4.extract_tr_surf_ids(cells))
+
+    def ensures(result, geoms, want):
+        yield 'exactly-the-referenced-implicit-numbers', result == want
